@@ -1785,7 +1785,9 @@ func (in *Interp) builderCall(fn *types.Func, call *ast.CallExpr, recv Val, args
 		}
 		return &IRVal{Op: strings.ToLower(strings.TrimPrefix(name, "New")), Args: as, Class: "ptr"}
 	case "NewBlock":
-		return newObj("ir.Block")
+		b := newObj("ir.Block")
+		b.set("Term", NilV{})
+		return b
 	case "NewCondBr", "NewBr", "NewRet", "NewUnreachable":
 		o := newObj("term")
 		for i, a := range args {
